@@ -414,6 +414,9 @@ func summarize(prop, tier string, seed int, pc *PropCfg, reps []*FuncReport, x *
 				case "sat":
 					nCoverOK++
 				case "unsat":
+					if o.Label == "loop-head" && strings.Contains(o.Name, "|") {
+						continue // a case split may legitimately exclude the loop
+					}
 					if !hasKnown {
 						vacuity = append(vacuity, o.Name)
 					}
